@@ -225,6 +225,8 @@ class Monitor(object):
         if i is None:
             return
         ctx["target"] = i
+        # what each protocol's prerequisites looked like before this event (see the end-of-step rule for instances that crossed a reload)
+        ctx["prereq_before"] = dict((p_, self.prereq(i, p_)) for p_ in proto.PROTOS)
         if t == "host":
             if not i.host:
                 i.host = ev["name"][:63]
@@ -599,7 +601,16 @@ class Monitor(object):
             crossed = getattr(i, "crossed_reload", False)
             for svc, protoname in self.cfg.services:
                 if crossed:
-                    break
+                    # a client that was in the middle of its registration when a reload happened: which of the services it had been
+                    # entitled to earlier are asked, and when, is not judged - but a service that is in the file NOW, was never asked
+                    # about this client, and whose protocol's needs become complete by THIS step's event must be asked in this step
+                    pb = ctx.get("prereq_before") if ctx.get("target") is i else None
+                    if (pb is not None and self.ev.get("t") in ("host", "nohost", "ident", "nick", "userinfo", "hurry") and not pb.get(protoname, True)
+                            and self.prereq(i, protoname) and i.queried.get(svc, 0) == 0 and not i.more_pending
+                            and not any(n_.lower() == svc.lower() for n_ in i.queried if n_ != svc)):
+                        self.v("C06", "query-skipped", "client %d (it crossed a reload): everything protocol %s of %s needs became known by step %r, %s is in the file now and was never asked about this client, but no query was sent" % (
+                            cid, protoname, svc, proto.render(self.ev), svc), sig="query-skipped:after-reload:" + protoname)
+                    continue
                 if i.queried.get(svc, 0) == 0 and self.prereq(i, protoname):
                     self.v("C06", "query-skipped", "client %d: everything protocol %s of %s needs is known (or hurry-up) at the end of step %r but no query was sent" % (
                         cid, protoname, svc, proto.render(self.ev)), sig="query-skipped:" + protoname)
